@@ -396,3 +396,56 @@ silent('C18', 'prs-extra-level-update',
 silent('C18', 'buffer-level-summands-swapped',
        lambda p: M.replace_node(p, S_BUF, 'BufferStore._update_time_averaged_level', M.assign_to('self._last_num_items'),
                                 'self._last_num_items = len(self.ready_items) + len(self.items)'))
+
+# ============================================================================================ C08
+fire('C08', 'machine-pull-before-slot', 'C08.R1', 'Machine.behaviour',
+     lambda p: M.delete_stmt(p, N_MAC, 'Machine.behaviour', lambda n: isinstance(n, ast.Expr) and isinstance(n.value, ast.Yield) and ast.unparse(n.value.value) == 'worker_thread_req'))
+fire('C08', 'machine-worker-no-release-on-discard', 'C08.R2', 'Machine.worker',
+     lambda p: M.insert_after(p, N_MAC, 'Machine.worker', M.assign_to("self.stats['num_item_discarded']"), 'return', which=0))
+fire('C08', 'splitter-worker-release-before-push', 'C08.R2', 'Splitter.worker',
+     lambda p: M.insert_after(p, N_SPL, 'Splitter.worker', M.stmt_calling('self._update_avg_time_spent_in_processing'), 'yield self.worker_thread.release(req_token)'))
+fire('C08', 'machine-resource-capacity-plus-one', 'C08.R3', 'Machine.__init__',
+     lambda p: M.replace_node(p, N_MAC, 'Machine.__init__', M.is_call('simpy.Resource'), sub('capacity=self.work_capacity', 'capacity=self.work_capacity + 1')))
+fire('C08', 'combiner-capacity-two', 'C08.R3', 'Combiner.__init__',
+     lambda p: M.replace_node(p, N_CMB, 'Combiner.__init__', M.assign_to('self.work_capacity'), 'self.work_capacity = 2'))
+fire('C08', 'machine-delay-drawn-twice', 'C08.R4', 'Machine',
+     lambda p: M.insert_after(p, N_MAC, 'Machine.behaviour', M.assign_to('next_processing_time'), 'next_processing_time = self.get_delay(self.processing_delay)'))
+fire('C08', 'machine-worker-waits-twice', 'C08.R4', 'Machine',
+     lambda p: M.insert_after(p, N_MAC, 'Machine.worker', M.assign_to('processing_start_time'), 'yield self.env.timeout(processing_delay)'))
+fire('C08', 'splitter-worker-waits-on-expression', 'C08.R4', 'Splitter',
+     lambda p: M.replace_node(p, N_SPL, 'Splitter.worker', M.is_call('self.env.timeout'), 'self.env.timeout(processing_delay * 2)'))
+fire('C08', 'combiner-delay-not-waited', 'C08.R4', 'Combiner',
+     lambda p: M.delete_stmt(p, N_CMB, 'Combiner.behaviour', lambda n: isinstance(n, ast.Expr) and isinstance(n.value, ast.Yield) and 'next_processing_time' in ast.unparse(n)))
+fire('C08', 'machine-worker-extra-wait-before-push', 'C08.R', 'Machine',
+     lambda p: M.insert_after(p, N_MAC, 'Machine.worker', M.stmt_calling('self._update_avg_time_spent_in_processing'), 'yield self.env.timeout(1)'))
+fire('C08', 'machine-behaviour-wait-before-spawn', 'C08.R5', 'Machine',
+     lambda p: M.insert_before(p, N_MAC, 'Machine.behaviour', M.assign_to('proc'), 'yield self.env.timeout(0.1)'))
+silent('C08', 'machine-delay-local-renamed',
+       lambda p: M.replace_node(p, N_MAC, 'Machine.behaviour', lambda n: isinstance(n, ast.While), sub('next_processing_time', 'delay_for_this_item')))
+
+# ============================================================================================ C09
+fire('C09', 'source-stale-edge (defect D5 re-introduced)', 'C09.R4', 'Source.behaviour',
+     lambda p: M.replace_node(p, N_SRC, 'Source.behaviour', M.assign_to('out_edge_to_put'), 'out_edge_index_to_put = None', which=0))
+fire('C09', 'machine-decision-var-not-reset', 'C09.R4', 'Machine.worker',
+     lambda p: M.delete_stmt(p, N_MAC, 'Machine.worker', M.assign_to('out_edge_index_to_put'), which=0))
+fire('C09', 'machine-blocking-discards', 'C09.R1', 'Machine.worker',
+     lambda p: M.insert_after(p, N_MAC, 'Machine.worker', M.assign_to('blocking_start_time'), "self.stats['num_item_discarded'] += 1", which=0))
+fire('C09', 'machine-nonblocking-push-without-probe', 'C09.R2', 'Machine.worker',
+     lambda p: M.replace_node(p, N_MAC, 'Machine.worker', M.if_testing('outedge_to_put.can_put()'), sub('outedge_to_put.can_put()', 'True')))
+fire('C09', 'source-nonblocking-probe-other-edge', 'C09.R2', 'Source.behaviour',
+     lambda p: M.replace_node(p, N_SRC, 'Source.behaviour', M.if_testing('outedge_to_put.can_put()'), sub('outedge_to_put.can_put()', 'self.out_edges[0].can_put()')))
+fire('C09', 'combiner-nonblocking-waits-before-push', 'C09.R2', 'Combiner.worker',
+     lambda p: M.insert_after(p, N_CMB, 'Combiner.worker', M.assign_to('blocking_start_time'), 'yield self.env.timeout(0)', which=3))
+fire('C09', 'splitter-refusal-not-counted', 'C09.R3', 'Splitter.worker',
+     lambda p: M.delete_stmt(p, N_SPL, 'Splitter.worker', M.assign_to("self.stats['num_item_discarded']"), which=1))
+fire('C09', 'machine-refusal-counted-twice', 'C09.R3', 'Machine.worker',
+     lambda p: M.insert_after(p, N_MAC, 'Machine.worker', M.assign_to("self.stats['num_item_discarded']"), "self.stats['num_item_discarded'] += 1", which=1))
+fire('C09', 'source-refusal-waits', 'C09.R3', 'Source.behaviour',
+     lambda p: M.insert_before(p, N_SRC, 'Source.behaviour', M.assign_to("self.stats['num_item_discarded']"), 'yield self.env.timeout(1)', which=1))
+fire('C09', 'machine-nonblocking-reserves-itself', 'C09.R2', 'Machine.worker',
+     lambda p: M.replace_node(p, N_MAC, 'Machine.worker', lambda n: isinstance(n, ast.Expr) and isinstance(n.value, ast.Yield) and '_push_item(item, outedge_to_put)' in ast.unparse(n),
+                              'tok = outedge_to_put.reserve_put()\nyield tok\noutedge_to_put.put(tok, item)'))
+fire('C09', 'buffer-can-put-reads-missing-attr', 'C09.R5', 'Buffer.can_put',
+     lambda p: M.replace_node(p, E_BUF, 'Buffer.can_put', lambda n: isinstance(n, ast.If), 'if self.inp_buf is None:\n    return False'))
+silent('C09', 'machine-probe-result-in-local',
+       lambda p: M.replace_node(p, N_MAC, 'Machine.worker', M.assign_to('out_edge_index_to_put'), 'out_edge_index_to_put = None  # reset for this item', which=0))
